@@ -63,7 +63,13 @@ fn key_report(privk: &str, pubk: &str) -> String {
     let both = match crate::crypto::Crypto::new([0; 16], &cfg2) { Ok(c) => format!("ok:{}", hex(&hc::crypto_public_key(&c))), Err(_) => "err".to_string() };
     let cfg3 = crate::crypto::Config { public_key: None, ..cfg2 };
     let both2 = match crate::crypto::Crypto::new([0; 16], &cfg3) { Ok(c) => format!("ok:{}", hex(&hc::crypto_public_key(&c))), Err(_) => "err".to_string() };
-    format!("privparse={} pubparse={} pair={} crypto={} both={} bothnopub={}", privparse, pubparse, pair, crypto, both, both2)
+    // a node configured with the private key only (no password, no trusted keys): it trusts exactly its own public key
+    let cfg4 = crate::crypto::Config { password: None, private_key: Some(privk.to_string()), public_key: None, trusted_keys: vec![], algorithms: vec!["plain".to_string()] };
+    let deftrust = match crate::crypto::Crypto::new([0; 16], &cfg4) {
+        Ok(c) => format!("ok:{}", hc::crypto_trusted(&c).iter().map(|k| hex(k)).collect::<Vec<_>>().join("+")),
+        Err(_) => "err".to_string(),
+    };
+    format!("privparse={} pubparse={} pair={} crypto={} both={} bothnopub={} deftrust={}", privparse, pubparse, pair, crypto, both, both2, deftrust)
 }
 
 pub fn b62_step(t: &[&str]) -> Option<String> {
